@@ -384,6 +384,49 @@ fn counters() {
                 }
             }
         }
+        // exact buffered set (Node objects; the crate-internal cleaner maps are not modelled)
+        if let Some(buf) = verif::buffer_snapshot(1 << 16) {
+            if !buf.truncated {
+                let mut by_box: std::collections::BTreeMap<usize, Oid> = std::collections::BTreeMap::new();
+                for o in &w.objs {
+                    if o.in_box && !o.dropped && o.box_addr != 0 {
+                        by_box.insert(o.box_addr, o.id);
+                    }
+                }
+                let observed: BTreeSet<Oid> = buf.entries.iter().filter_map(|e| by_box.get(&e.box_addr).copied()).collect();
+                let unknown = buf.entries.iter().filter(|e| !by_box.contains_key(&e.box_addr)).count();
+                let exec_now = state::executions_count().unwrap_or(0);
+                let collection_in_call = exec_now != w.exec_before || w.trace_in_call;
+                let model = buf_get();
+                if w.panicked_this_call || w.any_panic || (w.ptr_ops_in_callbacks && !collection_in_call) {
+                    buf_set(observed);
+                } else if !collection_in_call {
+                    if observed != model {
+                        let missing: Vec<_> = model.difference(&observed).collect();
+                        let extra: Vec<_> = observed.difference(&model).collect();
+                        let sig = format!("buffered-set/{}", if !missing.is_empty() { "object-not-buffered" } else { "object-still-buffered" });
+                        let d = format!("buffered objects {:?}, model {:?} (expected but absent: {:?}; present but unexpected: {:?}) after op kind {}", observed, model, missing, extra, w.cur_op_kind);
+                        w.violation(&["C11"], "buffered-set", sig, d, false);
+                        buf_set(observed);
+                    }
+                } else {
+                    // a collection ran in this call
+                    let quiet = w.fin_seen_in_call == 0 && w.drop_seen_in_call == 0 && w.created_in_call == 0;
+                    if quiet && w.cur_op_kind == 9 && (!observed.is_empty() || unknown != 0) {
+                        let sig = "buffered-set/not-empty-after-quiet-collection".to_string();
+                        w.violation(&["C11", "C02"], "buffered-set", sig, format!("a collection that ran no finalizer and no destructor left {:?} (+{} other entries) buffered", observed, unknown), false);
+                    }
+                    // whatever stays buffered must be alive and have lost a pointer at some time
+                    for &x in &observed {
+                        let o = &w.objs[x as usize];
+                        if !o.lost_ptr && o.fin_count == 0 && !o.tainted {
+                            w.violation(&["C11"], "buffered-set", "buffered-set/never-lost-a-pointer".into(), format!("obj{} is buffered after a collection but never lost a pointer", x), false);
+                        }
+                    }
+                    buf_set(observed);
+                }
+            }
+        }
         // bytes = sum of sizes of the live managed allocations (objects + cleaner maps)
         if !w.bytes_unknown && alloc::overflow_count() == 0 {
             let mut sum = 0usize;
